@@ -100,6 +100,12 @@ def correspondence(ctx):
     if rc != 0:
         raise V.BuildError('c07 sublayout class failed: ' + o[-2000:])
     V.evaluate_case_file(ctx, sout, ['model.CertConstraint'], corr=corr, max_samples=0)
+    # (f) letter case: spellings that differ only in case are different values (deterministic class attr/case-variant)
+    vout = os.path.join(ctx.dir, 'casevar.jsonl')
+    rc, o = ctx.run([binp, 'casevar', vout], 300)
+    if rc != 0:
+        raise V.BuildError('c07 case-variant class failed: ' + o[-2000:])
+    V.evaluate_case_file(ctx, vout, ['model.CertConstraint'], corr=corr, max_samples=0)
     # coverage-guided differential fuzzing against the Go transcription of C07_attr_spec / C07_constraint_spec: the fuzzer
     # sees the library's coverage, so a count comparison, a cache or a redaction is a branch it tries to reach
     # (failing-input search only, never the proof)
@@ -130,6 +136,10 @@ def correspondence(ctx):
                  "URI-focused (sound chain, other attributes matching) with URI constraints exact / permuted / wildcard / near miss "
                  "(password replaced by xxxxx, other password, password added or dropped, userinfo dropped, slash, port, host case, scheme "
                  "case, hex case, decoded escape, query, fragment), ground truth = string equality with (*url.URL).String(); "
+                 "class attr/case-variant (deterministic, real certificates through Check and CheckCertConstraints): for dns names, e-mail "
+                 "host part / local part / both, URI host / path, organisation (ASCII and e-acute), common name: an exact constraint value "
+                 "against a certificate value differing only in the case of one or all letters (both directions, rejected), the exact twins "
+                 "(accepted), two spellings listed with one / the other / both carried, one listed with both carried; "
                  "class sublayout-intermediates (end to end through InTotoVerify, files on disk): a signed super layout delegating a step "
                  "to a signed sublayout whose step is authorised by a certificate constraint (root list '*' and the root's id), leaf chaining "
                  "R -> I -> leaf / R -> I1 -> I2 -> leaf / R -> leaf, with the intermediates listed in the super layout only / in the sublayout / "
